@@ -24,7 +24,7 @@ PROPS = {
     'C12': {'units': ['bits', 'chal', 'coef', 'rcair'], 'kani': [], 'only': {'chal': r'canonical_width'}},
     'C15': {'units': ['shape', 'openin'], 'kani': [], 'only': {'openin': r'per_matrix_shape_and_grouping|compute_single_reduced_opening|height_group'}},
     'C13': {'units': ['sym', 'symx'], 'kani': []},
-    'C09': {'units': ['prep'], 'kani': []},
+    'C09': {'units': ['prep', 'mult'], 'kani': []},
     'C08': {'units': ['mmcs', 'hash', 'mbind'], 'kani': []},
     'C16': {'units': ['meta', 'vrfy'], 'kani': []},
     'C11': {'units': ['air', 'alu', 'run19'], 'kani': [], 'only': {'run19': r'execute_alu_op'}},
@@ -195,7 +195,9 @@ META['C09'] = {
             'Circuit::generate_preprocessed_columns EMITS: ghost counters are updated from the emitted creator/reader flags themselves, and the loop invariants require that no slot ever has two '
             'creators, that the `defined` table is exactly "has a creator", that the reader list passed to increment_ext_reads is exactly the flag-derived reader list, and that ext_reads equals '
             'the number of emitted reader roles (PreprocessedColumns::increment_ext_reads is proved to count every occurrence). The one-creator obligation fails in the Const/Public arms and in four '
-            'operand-alias cases of the ALU arm: recorded findings C09-two-creators and C09-alias-double-creator; everything else is discharged.',
+            'operand-alias cases of the ALU arm: recorded findings C09-two-creators and C09-alias-double-creator; everything else is discharged. '
+            'Unit mult: the prover-side conversion of one 12-value ALU row into its 13 bus columns (get_airs_and_degrees_with_prep, loop-body slice) sends every operand with the multiplicity of ITS OWN role '
+            'and ITS OWN slot: reader -1, creator +ext_reads[slot], skipped 0.',
     'note': 'Not decided: that every slot that is READ has a creator (needs the lowering invariants of the whole builder pipeline), the multiplicity conversion in circuit-prover/src/common.rs, '
             'non-primitive plugin preprocessing (opaque: may only add reads). Assumed: realistic sizes (< 2^19 ops, < 4096 output elements per non-primitive op) so u32 read counters do not overflow; '
             'flag values 0/1/2 distinct; dup_npo_outputs bookkeeping abstracted.',
